@@ -53,6 +53,15 @@ impl Property for C02 {
         let y1 = format(case, &case.text);
         let y2 = format(case, &y1);
         let s_in = scan::scan(&case.text);
+        if !feature_on("code_fence_in_body") && canon::has_fence_in_code(&s_in) {
+            return Verdict::Discard("known-domain: code body contains a fence line".into());
+        }
+        if !feature_on("adjacent_lists") {
+            let o = CanonOpts { dir: String::new(), mask_refreshable: false };
+            if canon::has_adjacent_same_lists(&canon::canon(&s_in, &o).blocks) {
+                return Verdict::Discard("known-domain: adjacent lists of the same kind".into());
+            }
+        }
         let st = canon::scan_stats(&s_in, &case.text);
         for k in &st.kinds {
             stats.class(&format!("has:{}", k));
